@@ -168,7 +168,14 @@ class Chart(DictPropertiesEqMixin, DictReprTruncatedSequencesMixin):
             elif header_tag not in cls._required_header_tags:
                 logger.warning(cls._unhandled_data_section_log_msg_tmpl.format(header_tag))
 
-        return cls(metadata, global_events_track, sync_track, instrument_tracks)
+        # Hand over a plain dict: a defaultdict would insert an empty entry whenever a caller
+        # merely looks up an instrument that has no track, mutating the chart.
+        return cls(
+            metadata,
+            global_events_track,
+            sync_track,
+            InstrumentTrackMap(dict(instrument_tracks)),
+        )
 
     @classmethod
     def _partition_lines_by_data_section(cls, lines: Iterable[str]) -> dict[str, Iterable[str]]:
@@ -279,7 +286,7 @@ class Chart(DictPropertiesEqMixin, DictReprTruncatedSequencesMixin):
         """
 
         try:
-            track = self.instrument_tracks[instrument][difficulty]
+            track = self[instrument][difficulty]
         except KeyError:
             raise ValueError(
                 f"no instrument track for difficulty {difficulty} instrument {instrument}"
@@ -347,4 +354,5 @@ class Chart(DictPropertiesEqMixin, DictReprTruncatedSequencesMixin):
         return f"{type(self).__name__}(\n  {item_string})"
 
     def __getitem__(self, instrument: Instrument) -> dict[Difficulty, InstrumentTrack]:
-        return self.instrument_tracks[instrument]
+        # Never insert on lookup, even if ``instrument_tracks`` is an auto-inserting mapping.
+        return self.instrument_tracks.get(instrument, {})
